@@ -194,6 +194,8 @@ var c02EnumDocs = map[string][]string{
 		"{i\x03abci\x01i\x05helloSi\x05worldi\x02xy[i\x01I\x01\x00l\x00\x01\x00\x00L\x00\x00\x00\x01\x00\x00\x00\x00d\x3f\x80\x00\x00D\x3f\xf0\x00\x00\x00\x00\x00\x00ZTFCa]}",
 		"[#i\x03i\x01SU\x03abc[#i\x01Z", "{#i\x02i\x03keyi\x01I\x00\x04abcdT", "[$i#i\x03\x01\x02\x03", "{$S#i\x02i\x02k1i\x02v1i\x02k2i\x02v2",
 		"[$[#i\x02$i#i\x01\x05#i\x01Z", "[[$d#i\x01\x3f\x80\x00\x00i\x07]", "Hi\x0512345", "NNSI\x00\x03abc", "[i\x01", "[#S\x01",
+		// no-ops in front of elements and member values of every container form
+		"[#i\x02Ni\x05NNNU\x07", "[NNi\x01N]", "{i\x01aNNi\x01}", "{#i\x01i\x01aNNT", "N[#i\x01N[#i\x01NZ", "[#i\x01N{#i\x01i\x01kN[NN]",
 	},
 	"cborl": {
 		"\xa2\x63abc\x01\x65hello\x65world", "\x9f\x18\x18\x19\x01\x00\x1a\x00\x01\x00\x00\x1b\x00\x00\x00\x01\x00\x00\x00\x00\x38\xc7\x39\x01\x00\xfa\x3f\x80\x00\x00\xfb\x3f\xf0\x00\x00\x00\x00\x00\x00\xf4\xf5\xf6\xf7\xff",
